@@ -89,4 +89,25 @@ theorem observers_change_nothing (t : Impls) (ifaceOf : Nat → Nat) (s s1 : St)
   rcases h1 with h1 | h1 <;> simp only [step] at h1 <;> (repeat' split at h1) <;> simp_all <;>
     (subst h1; exact ⟨rfl, rfl, rfl⟩)
 
+/-- a mutator that returns a value (`println(p.m3(k))`, also through a pointer `q->m3(k)` with `I* q = &p`) is the
+    mutation followed by the observation: the write made through self is in the receiver when the call returns -/
+theorem mutRet_is_mut_then_obs (t : Impls) (ifaceOf : Nat → Nat) (s : St) (p : Nat) (k : Int) :
+    step t ifaceOf s (.mutRet p k) =
+      (step t ifaceOf s (.mut p k)).bind fun s' => step t ifaceOf s' (.obs p) := by
+  simp only [step]
+  cases h : s.ifv[p]? with
+  | none => simp
+  | some o =>
+    cases o with
+    | none => simp
+    | some jv =>
+      obtain ⟨j, v⟩ := jv
+      cases hm : t.get (ifaceOf p) j with
+      | none => simp [hm]
+      | some m =>
+        have hp : p < s.ifv.length := by
+          rcases List.getElem?_eq_some_iff.mp h with ⟨hp, _⟩
+          exact hp
+        simp [hm, List.getElem?_set_self hp]
+
 end CbProps.C12
